@@ -576,7 +576,14 @@ fn pool_worker_loop(pool: Arc<ThreadPool>, timeout: Option<Duration>) {
                     .task_wakeup
                     .wait_timeout(records, time_to_deadline)
                     .unwrap();
-                if wait_result.timed_out() {
+                // NOTE: even when the wait timed out, a task may have
+                // been queued for us: a submitter that holds the lock
+                // counts us as available until we decrement
+                // available_workers, and its notification is lost if
+                // our timeout has already expired. So we may leave
+                // only if the queue is empty; otherwise we go around
+                // the loop again and take the task.
+                if wait_result.timed_out() && records.queue.is_empty() {
                     #[cfg(feature = "verif_hooks")]
                     crate::verif::failpoint(crate::verif::POOL_WORKER_TIMED_OUT);
                     records.available_workers -= 1;
